@@ -360,6 +360,11 @@ var c15MediaGrid = []c15GridCell{
 	{"text/html; charset=ibm437", ""}, {"multipart/form-data; boundary=xml", ""}, {"video/mp4; note=text", ""}, {"application/x+verif; charset=gbk", ""},
 	{"application/x+verif", ""}, {"message/http; charset=iso-8859-1", ""}, {"text/html; charset=gbk", "gzip"}, {"image/png; charset=gbk", "identity"},
 	{"text/html", "br"}, {"text/html; charset=utf-16le", ""}, {"text/html; foo", ""}, {"charset", ""},
+	// registered IANA names WITHOUT an implementation (ianaindex answers nil, nil), WHATWG aliases, odd spellings
+	{"text/html; charset=utf-7", ""}, {"text/plain; charset=UTF-32", ""}, {"application/json; charset=cesu-8", ""}, {"text/xml; charset=scsu", ""},
+	{"text/html; charset=ebcdic-us", ""}, {"text/html; charset=latin1", ""}, {"text/html; charset=\" GB2312 \"", ""}, {"text/html; charset=x-sjis", ""},
+	{"text/html; charset=csisolatin2", ""}, {"text/html; charset=unicode-1-1-utf-8", ""}, {"text/html; charset=macintosh", ""}, {"text/html; charset=cp437", ""},
+	{"text/html; charset=replacement", ""}, {"text/html; charset=x-user-defined", ""}, {"text/html; charset=iso-8859-1", ""}, {"text/html; charset=windows-1252x", ""},
 }
 
 // c15ExpectedKind: the oracle's reading of autoDecodeResponseBody (independent of the model).
